@@ -216,6 +216,12 @@ func init() {
 	add(&sub{Name: "P4", Pre: true, Posted: post(p, 2), Path: p})
 	p = path(pre("p2", i2))
 	add(&sub{Name: "P2", Pre: true, Posted: post(p, 3), Path: p})
+	// root A cross-certified by root B: one issuing CA (I1), two paths above it
+	ax := det(pki.NewCA("C14 Root A", pki.LoadKey("p256-0"), rootB, pki.CAOpts{}))
+	lx := leaf("l1x", i1)
+	add(&sub{Name: "L1x", Posted: pki.DERs(lx, i1, ax), Path: []*pki.Cert{lx, i1, ax, rootB}})
+	px := pre("p1x", i1)
+	add(&sub{Name: "P1x", Pre: true, Posted: pki.DERs(px, i1, ax), Path: []*pki.Cert{px, i1, ax, rootB}})
 	for i, s := range subs {
 		if s.Path == nil {
 			continue
